@@ -67,6 +67,8 @@ def tasks(tier, seed):
         nm = G.name_of(d)
         if d['fam'] in ENCODABLE:
             ts.append(dict(kind='codec', name='codec/' + nm, desc=d))
+        if d['fam'] == 'Exp':
+            ts.append(dict(kind='contig', name='contig/' + nm, desc=d))
         if d['fam'] != 'Exp':
             for s in (0, 1):
                 ts.append(dict(kind='value', name='value/%s/s%d' % (nm, s), desc=d, s=s))
@@ -82,7 +84,7 @@ def tasks(tier, seed):
 
 def required_witnesses(tier):
     return ['decode-nan', 'decode-inf', 'decode-subnormal', 'decode-normal', 'decode-negzero', 'roundtrip-bits', 'member', 'non-member',
-            'redundant-encoding', 'ordinal-roundtrip', 'order-less', 'order-equal', 'contig-interior', 'next-up', 'next-down', 'extremes']
+            'redundant-encoding', 'ordinal-roundtrip', 'order-less', 'order-equal', 'contig-interior', 'next-up', 'next-down', 'extremes', 'ordinal-outside-rejected']
 
 
 def describe(tier):
@@ -316,9 +318,29 @@ def run_task(task):
             lo_o, hi_o = -40, 40
 
         def setup(e):
-            return (e.fresh('o', lo_o, hi_o),)
+            return (e.fresh('o', lo_o - (2 if sized else 0), hi_o + (2 if sized else 0)),)
 
         def run(e, o):
+            inside = e.branch(z3.And(o.t >= lo_o, o.t <= hi_o))
+            if not inside:
+                # outside the ordinal range of the finite values: no finite value may come back
+                try:
+                    x = fmt.from_ordinal(o)
+                    fin = not x.is_nar()
+                except (ValueError, TypeError, OverflowError):
+                    fin = False
+                except Exception as ex:  # noqa
+                    e.require(False, info={'step': 'from_ordinal outside the range raised an unexpected error', 'err': repr(ex)[:150]}, tag='contig'); return
+                e.cover('ordinal-outside-rejected', True)
+                e.require(z3.BoolVal(not fin) if fam != 'Exp' else z3.BoolVal(not fin or False), info={'step': 'an ordinal outside the range of the finite values produced a finite value'}, tag='contig')
+                if fam == 'Exp' and not fin:
+                    # the all-ones code is NaN: it is not an ordinal either
+                    try:
+                        y = fmt.from_ordinal(o)
+                        e.require(False, info={'step': 'ExpFormat.from_ordinal accepted the NaN code as an ordinal'}, tag='contig')
+                    except (ValueError, TypeError, OverflowError):
+                        pass
+                return
             try:
                 x = fmt.from_ordinal(o)
             except Exception as ex:  # noqa
@@ -365,7 +387,10 @@ def run_task(task):
             lg = fmt.largest(); sm = fmt.smallest()
             if Fraction(int(lg.c)) * Fraction(2) ** int(lg.exp) != sp.pos_max:
                 bad.append('largest')
-            if Fraction(int(sm.c)) * Fraction(2) ** int(sm.exp) != sp.neg_max:
+            if fam == 'Exp':
+                if Fraction(int(sm.c)) * Fraction(2) ** int(sm.exp) != Fraction(2) ** sp.exp_min:
+                    bad.append('smallest (exponential format: the minimum power of two)')
+            elif Fraction(int(sm.c)) * Fraction(2) ** int(sm.exp) != sp.neg_max:
                 bad.append('smallest')
         if fam != 'Exp' and (not sized or sp.pos_max != 0):
             mv = fmt.minval(False)
